@@ -78,6 +78,9 @@ def ctx_of(node):
     c = getattr(node, 'ctx', None)
     if c is None:
         return None
+    if getattr(c, '__name__', '') == 'CallerMustSetThis':
+        # qual_names.QN.ast() marks "not decided yet" with this class; like None it is not a context
+        return None
     if type(c) not in CTXNAME:
         raise Untranslatable('untranslatable: ctx %r' % (c,))
     return CTXNAME[type(c)]
@@ -163,6 +166,25 @@ PINNED = {
 }
 
 
+def _norm_locals(src):
+    """source of one function with its local variables (assigned plain names) renamed v0, v1, ..
+    in order of first assignment, and string constants dropped from assert messages."""
+    t = ast.parse(src)
+    fn = t.body[0]
+    params = {a.arg for a in fn.args.args}
+    names = []
+    for n in ast.walk(fn):
+        if isinstance(n, ast.Name) and isinstance(n.ctx, ast.Store) and n.id not in params and n.id not in names:
+            names.append(n.id)
+    ren = {nm: 'v%d' % i for i, nm in enumerate(names)}
+    for n in ast.walk(fn):
+        if isinstance(n, ast.Name) and n.id in ren:
+            n.id = ren[n.id]
+        if isinstance(n, ast.Assert):
+            n.msg = None
+    return ast.unparse(t)
+
+
 def _strip_doc(fn):
     body = fn.body
     if body and isinstance(body[0], ast.Expr) and isinstance(body[0].value, ast.Constant) and isinstance(body[0].value.value, str):
@@ -202,7 +224,7 @@ def translate_adjuster(repo):
         if item.name in PINNED:
             cp = ast.FunctionDef(name=item.name, args=item.args, body=_strip_doc(item), decorator_list=[],
                                  returns=None, type_comment=None, type_params=[])
-            if ast.unparse(ast.fix_missing_locations(cp)) != PINNED[item.name]:
+            if _norm_locals(ast.unparse(ast.fix_missing_locations(cp))) != _norm_locals(PINNED[item.name]):
                 _fail(rel, item, '%s differs from the modelled text' % item.name)
             seen.add(item.name)
             continue
